@@ -182,6 +182,12 @@ def all_scenarios():
         Scn("tls11-rsa-3des", T11, c={"keyExchangeNames": ["rsa"], "cipherNames": ["3des"]}, kx="rsa"),
         Scn("tls10-rsa-aes-noetm", T10, c={"keyExchangeNames": ["rsa"], "cipherNames": ["aes128"], "useEncryptThenMAC": False},
             kx="rsa"),
+        Scn("tls12-cbc-etm", T12, c={"cipherNames": ["aes128"], "macNames": ["sha"]}, kx="ecdhe_rsa"),
+        Scn("tls12-cbc-noetm", T12, c={"cipherNames": ["aes256"], "macNames": ["sha256"], "useEncryptThenMAC": False},
+            kx="ecdhe_rsa"),
+        Scn("tls11-cbc-noetm", T11, c={"cipherNames": ["aes128"], "useEncryptThenMAC": False}, kx="ecdhe_rsa"),
+        Scn("tls10-cbc-etm", T10, c={"cipherNames": ["3des"]}, kx="ecdhe_rsa"),
+        Scn("tls12-rc4", T12, c={"cipherNames": ["rc4"]}, s={"cipherNames": ["rc4"]}, kx="rsa"),
         Scn("tls13-hrr", T13, kx="tls13", c={"keyShares": ["x25519"]},
             s={"eccCurves": ["secp256r1"], "keyShares": ["secp256r1"]}),
         Scn("tls13-psk", T13, kx="tls13", kind="psk", c={"pskConfigs": psk}, s={"pskConfigs": psk}),
@@ -1264,6 +1270,7 @@ def model_correspondence(ctx, J, bases):
     from . import c08_flights as FL
     FL.hrr_stream(ctx, J, ctx.pick(500, 6000))
     FL.resume_stream(ctx, J, bases)
+    FL.keyed_peer_stream(ctx, J, ctx.thorough())
     FL.early_data_stream(ctx, J, ctx.thorough())
     FL.resumption_history_stream(ctx, J, ctx.thorough())
     FL.flight_stream(ctx, J, bases, ctx.pick(25, 400))
@@ -1311,6 +1318,10 @@ def run_input(ctx, J, inp):
         muts = {int(k): v for k, v in inp["muts"].items()}
         L, applied, peak = run_handshake_case(scn, inp["side"], muts, None, ctxm)
         return judge(J, L, "server" if inp["side"] == "client" else "client", "flight " + inp.get("cls", ""), inp)
+    if stage == "keyed-record":
+        from . import c08_flights as FL
+        FL.keyed_peer_stream(ctx, J, True, only=(inp["scn"], inp["victim"], inp["craft"]))
+        return {"violations": [v["key"] for v in ctx.violations]}
     if stage == "early-data":
         from . import c08_flights as FL
         sz = inp["sizes"]
@@ -1358,7 +1369,7 @@ def replay(ctx, rep):
     tracemalloc.start(1)
     try:
         out = run_input(ctx, J, inp)
-        if out is None and stage not in ("handshake", "raw", "post", "ch-features", "flight", "hrr", "early-data", "resumption-history"):
+        if out is None and stage not in ("handshake", "raw", "post", "ch-features", "flight", "hrr", "early-data", "resumption-history", "keyed-record"):
             print("replay of stage %r: re-running the whole check" % stage)
             Mem.mode = "rss"
             run(ctx)
